@@ -151,7 +151,7 @@ func numOps() []Op {
 var (
 	payloadsB1   = alphaB
 	payloadsMini = []string{"a", "\n", mStart, mEnd, "\xe2"}
-	payloadsQ    = []string{"", "a", " ", "\n", "?", "\xe2", "\x80", "\xb9", "\xba", mStart, mEnd, "x\ny", "é", "\u1039", "\u503a", "\U0001f039", "b\ufffd"}
+	payloadsQ    = []string{"", "a", " ", "\n", "?", "\xe2", "\x80", "\xb9", "\xba", mStart, mEnd, "x\ny", "é", "\u1039", "\u503a", "\U0001f039", "b\ufffd", "\u2038", "\u203b"}
 	payloadsLong = []string{strings.Repeat("a", 61), strings.Repeat("a", 64), strings.Repeat("a", 70), strings.Repeat("a", 62) + mStart, strings.Repeat("a", 63) + "\n"}
 	runesQ       = []rune{'a', '\n', '‹', '›', 'é', 0xfffd}
 	runesFull    = []rune{'a', '\n', ' ', '‹', '›', 'é', '×', 0xfffd, 0x10ffff, 0xd800, 0xdfff, -1, 0x110000}
